@@ -8,7 +8,7 @@ import warnings
 
 import numpy as np
 
-from hyverif.core import digest
+from hyverif.core import digest, same_result, scalar_forms
 
 ID = "C10"
 SHARDS = {"quick": 8, "thorough": 16}
@@ -295,6 +295,15 @@ def run_pit_case(ctx, case):
                                               "want": want.tolist()})
     ctx.nontrivial("pit", obs, ens, rnd, cst, censor)
     if not rnd:
+        k = n + m
+        try:
+            psf = call(m_.pit, obs, ens, random=False, cst=scalar_forms(cst, k),
+                       censor=scalar_forms(censor, k + 1), kind=kind)
+            ctx.check("pit.scalar-forms", same_result(psf, (pits, np.asarray(sudo))),
+                      "pit|result-depends-on-scalar-type-of-options", case, None)
+        except Exception as e:
+            ctx.check("pit.scalar-forms", False, "pit|raises-on-numpy-scalar-option", case,
+                      {"exc": repr(e)})
         ctx.reuse("pit", lambda o_, e_: call(m_.pit, o_, e_, random=False, cst=cst,
                                              censor=censor, kind=kind), [obs, ens],
                   (pits, np.asarray(sudo)), case)
